@@ -31,6 +31,22 @@ contract(BLOCK, 'BlockParser._skip_other_block', 'C18',
 
 
 
+contract(BLOCK, 'BlockParser._analyze_entry', 'C18', types={'return': 'tuple[str, int, int]'}, replay='_analyze_call',
+	instantiate={'brackets': ['[]', '()', '{}', '<>']},
+	requires=['0 <= begin', 'begin < len(text)', 'len(delimiter) <= 1'],
+	raises={},
+	ensures=[
+		'result[0] == "block" or result[0] == "element" or result[0] == "end"',
+		# a block entry: its name starts at result[1] and its opening bracket stands at result[2]
+		'implies(result[0] == "block", begin <= result[1] and result[1] <= result[2] and result[2] < len(text) and text[result[2]] == brackets[0])',
+		# an element entry ends at the next delimiter or bracket of the block, strictly after the start (the scan makes progress)
+		'implies(result[0] == "element", begin <= result[1] and result[1] <= result[2] and begin < result[2] and result[2] < len(text) and text[result[2]] in brackets + delimiter)',
+		'implies(result[0] == "end", result[2] == -1 and begin <= result[1] and result[1] <= len(text))'],
+	loops={0: Loop(invariant=['begin <= index', 'index <= len(text)', 'begin <= entry_begin', 'entry_begin <= index', 'entry_begin <= len(text)',
+		'implies(index == begin, text[begin] != brackets[0] and text[begin] != brackets[1] and text[begin] not in delimiter)'], decreases='len(text) - index')},
+)
+
+
 @lemma('C18',
 	requires=['0 <= p', 'p < k', 'k <= len(text)', 'len(b0) == 1', 'len(b1) == 1', 'b0 != b1', 'text[p] == b0', 'depth(text, b0, b1, p) == 0',
 		'all(depth(text, b0, b1, j) >= 1 for j in range(p + 1, k + 1))'],
@@ -261,4 +277,19 @@ def gen_param(rnd, tier):
 		yield {'parameter': ''.join(rnd.choice(ALPHA) for _ in range(rnd.randint(0, 6))), 'g_type': '', 'g_name': '', 'g_default': ''}
 
 
-TWINS = {'CppViewHelper.Param.parse': gen_param, 'DecoratorHelper._parse': gen_deco, 'BlockParser._skip_other_block': gen_skip, 'BlockParser.break_last_block': gen_last_block, 'BlockParser.break_separator': gen_break_sep}
+@native
+def _analyze_call(cls=None, text='', brackets='()', delimiter=',', begin=0):
+	"""BlockParser._analyze_entry on the real class; the kind is read by its value (as the contract does)."""
+	from rogw.tranp.view.helper.block import BlockParser
+	k, a, b = BlockParser._analyze_entry(text, brackets, delimiter, begin)
+	return (k.value, a, b)
+
+
+def gen_analyze(rnd, tier):
+	alpha = list('ab ,:()[]{}<>"\'')
+	while True:
+		text = ''.join(rnd.choice(alpha) for _ in range(rnd.randint(1, 10)))
+		yield {'cls': None, 'text': text, 'brackets': rnd.choice(['()', '[]', '{}', '<>']), 'delimiter': rnd.choice([',', ':', '']), 'begin': rnd.randrange(len(text))}
+
+
+TWINS = {'BlockParser._analyze_entry': gen_analyze, 'CppViewHelper.Param.parse': gen_param, 'DecoratorHelper._parse': gen_deco, 'BlockParser._skip_other_block': gen_skip, 'BlockParser.break_last_block': gen_last_block, 'BlockParser.break_separator': gen_break_sep}
